@@ -709,6 +709,20 @@ var (
 // streamOffered: on the streaming path too a message keeps being offered until it is acknowledged —
 // a deadline extension or a nack sent on the stream is not an acknowledgement
 func streamOffered(t *testing.T, st *Stats) {
+	// the push path is a consumer too: messages the endpoint refused keep being offered
+	for _, mix := range [][2]int{{6, 0}, {3, 3}} {
+		what := pushBatchOutcome(t, Seed(), mix[0], mix[1])
+		st.Count("push_batch_cases", 1)
+		if what != "" && !strings.HasPrefix(what, "setup:") {
+			p := ReplayPath(fmt.Sprintf("C01-push-batch-%d.txt", Seed()))
+			os.WriteFile(p, []byte(fmt.Sprintf("push subscription (min backoff 1 s); window opened by fast successes; then a batch held in flight and answered together: %d x 500, %d x slow 200\n%s\n", mix[0], mix[1], what)), 0o644)
+			st.Violate(Violation{What: "[push-refused-not-offered-again] " + what, Replay: p, FoundInput: true, Sig: "push-refused-not-offered-again"})
+			return
+		}
+		if strings.HasPrefix(what, "setup:") {
+			st.Count("push_batch_setup_failed", 1)
+		}
+	}
 	for _, grpc := range []bool{true, false} {
 		for _, how := range []string{"extend", "nack"} {
 			if how == "extend" && !grpc {
